@@ -6,6 +6,7 @@ import KyupyVerif.Proofs.Substitute4
 import KyupyVerif.Proofs.SubstituteRes
 import KyupyVerif.Proofs.SubstSem9
 import KyupyVerif.Proofs.SubstResolve
+import KyupyVerif.Proofs.SubstSem10
 /-! # C10 — copy, pickle, fork elimination and cell substitution preserve function
 
 Objects of the theorems: the hand-written models `KV.Transform` of `Circuit.copy`, `__getstate__/__setstate__`,
@@ -70,10 +71,18 @@ driver raises, or is passed over — patch 06, the current tree).
     `substitute_designated_port_not_wf` — kernel-checked witness that the side condition "designated cell is not a port"
     is needed: for a Verilog-style feed-through implementation the real `substitute` (and the model) return a circuit that
     is not well-formed (a copied line loses its reader pin to the instance's input line) — a finding of this round.
-    NOT covered by `substitute_sem` (modelled, covered by `substitute_ports` / `substitute_state_perm` and the oracle only):
-    uses in which `substitute` removes something — an input pin that the implementation ignores (`Line.remove` renumbers
-    lines inside the loop), an unconnected output whose driver dangles (`remove_dangling_nodes`), an implementation
-    without designated cell (`node.remove()`) — and implementations violating `implOKB`.
+    **`remove_dangling_sem`** — `remove_dangling_nodes` (model `removeDangling`, every circuit that is well-formed up to trailing
+    `None`s, any start nodes / `only` set): the result is well-formed up to trailing `None`s and embeds into the circuit
+    before (index maps `r`: kinds, names, ports, state elements, the lines read at every pin and the driver of every
+    surviving line are kept); consistent labellings restrict to consistent labellings, and extend back given values for the
+    removed lines that satisfy their equations.  **`substitute_sem_removing`** — `substitute` with an unconnected output whose
+    driver dangles (`noIgnoredB`: designated cell, no connected-but-ignored input pin; any outputs): the result is the
+    circuit `substituteCore` builds, for which `SubstSemStmt` (the conclusion of `substitute_sem`) holds, with dangling logic
+    removed as in `remove_dangling_sem`.  The result need not satisfy `NNet.wf`: `Line.remove()` leaves a trailing `None` in
+    the pin list of a cell (example `exImplFZ`; then `copy_dump_eq` does not apply to it).
+    NOT covered (modelled, covered by `substitute_ports` / `substitute_state_perm` and the oracle only): an input pin that
+    the implementation ignores (`Line.remove` renumbers lines inside the loop), an implementation without designated cell
+    (`node.remove()`), implementations violating `implOKB`.
   - **`resolve_sem`** — `resolve_tlib_cells` (model `resolveCells`) when every substitution along the loop removes nothing
     (`resolveOKB`, decidable by running the model): the result is well-formed, keeps ports, other nodes and node keys, and
     its consistent labellings are exactly the labellings of the original circuit that are consistent outside the library
@@ -379,7 +388,9 @@ theorem substitute_wf (h m h' : NNet) (c : Nat) (hw : h.wf = true) (mw : m.wf = 
   obtain ⟨sh, dn, map, ct⟩ := substitute_cert h m h' c (WF.of_wf hw) (WF.of_wf mw) hc hio hcf hr hok he
   exact wf_of_WF ct.wf'
 
-/-- **`substitute` preserves the function** (full semantic statement; all uses in which nothing is removed, `keepsAllB`:
+/-- **the semantic statement about `substitute`** (conclusion of `substitute_sem`; `h'` = the circuit after the implementation
+    has been copied in and connected, before dangling logic is removed — which is the result of `substitute` when nothing
+    is removed).  `substitute` preserves the function (full semantic statement; all uses in which nothing is removed, `keepsAllB`:
     regular use — `regular_keepsAll` —, unconnected input pins, unconnected outputs whose driver stays).
     Vocabulary (Model/SubstSem.lean, Proofs/SubstSem1.lean): `ConsOff nn S an v` — the labelling `v` of the lines of `nn`
     under the node-indexed assignment `an` satisfies the equation (`lineEq`, Model/Net.lean) of every line whose driver
@@ -404,10 +415,7 @@ theorem substitute_wf (h m h' : NNet) (c : Nat) (hw : h.wf = true) (mw : m.wf = 
     No acyclicity, no uniqueness of labellings and no evaluation order is needed; multi-output cells, outputs read
     inside the implementation, inputs with one or many readers, state elements inside the implementation and
     unconnected input pins are covered uniformly. -/
-theorem substitute_sem {α : Type _} (h m h' : NNet) (c : Nat) (hw : h.wf = true) (mw : m.wf = true) (hc : c < h.net.nodes.size)
-    (hio : h.net.io.contains c = false) (hcf : (h.net.node c).isFork = false)
-    (hr : keepsAllB h c m = true) (hok : implOKB m = true) (he : substitute h c m = some h')
-    (z : α) (neg : α → α) (prim : String → α → α → α → α → α) :
+def SubstSemStmt {α : Type _} (h m h' : NNet) (c : Nat) (z : α) (neg : α → α) (prim : String → α → α → α → α → α) : Prop :=
     ∃ (sh : Shape) (dn : Nat) (map : Array (Option Nat)),
       implShape m = some sh ∧ sh.des = some dn ∧ h'.wf = true ∧
       -- `node_map`
@@ -435,12 +443,98 @@ theorem substitute_sem {α : Type _} (h m h' : NNet) (c : Nat) (hw : h.wf = true
           (∀ j x, j ∉ m.net.io → map.getD j none = some x → an' x = anm j) ∧
           (∀ t (ht : t < (copiedLines m map).length), v' (h.net.lines.size + t) = vm (copiedLines m map)[t]) ∧
           (∀ j x k, map.getD j none = some x → ¬ (j ∈ m.net.io ∧ (m.net.node j).ins.length = 0) →
-            ((h'.net.node x).inPin k).map v' = (((cutIns m (deadLine h c m sh)).net.node j).inPin k).map vm)) := by
+            ((h'.net.node x).inPin k).map v' = (((cutIns m (deadLine h c m sh)).net.node j).inPin k).map vm))
+
+/-- `substitute`, when nothing is removed (`keepsAllB`), satisfies the semantic statement `SubstSemStmt` (see there) -/
+theorem substitute_sem {α : Type _} (h m h' : NNet) (c : Nat) (hw : h.wf = true) (mw : m.wf = true) (hc : c < h.net.nodes.size)
+    (hio : h.net.io.contains c = false) (hcf : (h.net.node c).isFork = false)
+    (hr : keepsAllB h c m = true) (hok : implOKB m = true) (he : substitute h c m = some h')
+    (z : α) (neg : α → α) (prim : String → α → α → α → α → α) : SubstSemStmt h m h' c z neg prim := by
   obtain ⟨sh, dn, map, ct⟩ := substitute_cert h m h' c (WF.of_wf hw) (WF.of_wf mw) hc hio hcf hr hok he
   exact ⟨sh, dn, map, ct.shape, ct.des, wf_of_WF ct.wf', ct.mapDn,
     fun j x hm => ⟨ct.mapM j x hm, ct.mapGe j x hm, ct.mapLt j x hm, ct.kind' j x hm⟩, ct.mapInj, ct.io', ct.frameNode, ct.lsize,
     fun S hS an' v' hc' => ct.forward z neg prim S hS an' v' hc',
     fun S an v anm vm hH hM => ct.backward z neg prim S an v anm vm hH hM⟩
+
+/-- **`remove_dangling_nodes` preserves the function** (model `removeDangling`: any start nodes, any `only` set of valid node
+    references, any fuel that suffices), for every circuit that is well-formed up to trailing `None`s (`wfNoTrail`):
+    the result is again well-formed up to trailing `None`s (`Line.remove()` leaves a trailing `None` in the pin list of a
+    cell, so `NNet.wf` itself can fail), and there are index maps `r` (new index ↦ old index) under which every surviving
+    node keeps kind, name and — pin by pin — the lines it reads, every surviving line keeps its driver, the ports are
+    the same list, every flip-flop/latch survives; hence (restrict) every labelling of the circuit before that is consistent
+    outside `S`, restricted to the surviving lines and renamed, is consistent for the result, and (extend) a labelling of
+    the circuit before whose restriction is consistent for the result and which satisfies the equations of the removed
+    lines is consistent.  (Removed nodes drive removed lines only, so nothing that survives reads a removed line.) -/
+theorem remove_dangling_sem {α : Type _} (fuel : Nat) (nn nn' : NNet) (own : List Nat) (stack : List (Option Nat))
+    (hw : nn.wfNoTrail = true) (ho : own.all (fun x => decide (x < nn.net.nodes.size)) = true)
+    (he : removeDangling fuel nn own stack = some nn') (z : α) (neg : α → α) (prim : String → α → α → α → α → α) :
+    nn'.wfNoTrail = true ∧ ∃ r : Ren,
+      (∀ j', j' < nn'.net.nodes.size → r.node j' < nn.net.nodes.size ∧ (nn'.net.node j').kind = (nn.net.node (r.node j')).kind ∧
+        nn'.names.getD j' "" = nn.names.getD (r.node j') "" ∧
+        ∀ k, ((nn'.net.node j').inPin k).map r.line = (nn.net.node (r.node j')).inPin k) ∧
+      (∀ j1 j2, j1 < nn'.net.nodes.size → j2 < nn'.net.nodes.size → r.node j1 = r.node j2 → j1 = j2) ∧
+      nn'.net.io.map r.node = nn.net.io ∧
+      (∀ j, j < nn.net.nodes.size → isSeqKind (nn.net.node j).kind = true → ∃ j', j' < nn'.net.nodes.size ∧ r.node j' = j) ∧
+      (∀ l', l' < nn'.net.lines.size → r.line l' < nn.net.lines.size ∧
+        (nn.net.line (r.line l')).driver = r.node (nn'.net.line l').driver) ∧
+      (∀ (S : Nat → Prop) (an v : Nat → α), ConsOff nn S z neg prim an v →
+        ConsOff nn' (fun j' => S (r.node j')) z neg prim (fun j => an (r.node j)) (fun l => v (r.line l))) ∧
+      (∀ (S : Nat → Prop) (an v : Nat → α),
+        ConsOff nn' (fun j' => S (r.node j')) z neg prim (fun j => an (r.node j)) (fun l => v (r.line l)) →
+        (∀ l, l < nn.net.lines.size → (¬ ∃ l', l' < nn'.net.lines.size ∧ r.line l' = l) → ¬ S (nn.net.line l).driver →
+          v l = lineEq nn.net (spN nn.net) z neg prim an v l) →
+        ConsOff nn S z neg prim an v) := by
+  have ho' : ∀ x ∈ own, x < nn.net.nodes.size := fun x hx => by simpa using List.all_eq_true.mp ho x hx
+  obtain ⟨w', r, e, sq⟩ := removeDangling_emb fuel nn own stack nn' (WFm.of_wfNoTrail hw) ho' he
+  exact ⟨wfNoTrail_of_WFm w', r, fun j' hj => ⟨e.nodeLt j' hj, e.kind j' hj, e.name j' hj, e.pins j' hj (fun x => x)⟩, e.nodeInj, e.io,
+    sq, fun l' hl => ⟨e.lineLt l' hl, (e.drv l' hl).2.1⟩, fun S an v hc => e.restrict S z neg prim an v hc,
+    fun S an v hc hrem => e.extend S z neg prim an v hc hrem⟩
+
+/-- **`substitute` with removal of dangling logic** (an unconnected output of the instance whose driver dangles): designated
+    cell exists and no connected input pin is ignored (`noIgnoredB`; no condition on the outputs), `implOKB`.  The result
+    `h'` of `substitute` is the circuit `h5` that `substituteCore` builds — for which the full semantic statement
+    `SubstSemStmt` holds — with dangling logic removed: `h'` embeds into `h5` as in `remove_dangling_sem` (well-formed up
+    to trailing `None`s, index maps `r`, same ports, all state elements, every surviving node reads the same lines,
+    restrict / extend).  Composition: every labelling of the host that is consistent outside the cell, together with an
+    `ImplMatches` labelling of the implementation, yields a consistent labelling of `h'` (glue, then restrict); every
+    consistent labelling of `h'`, extended by values for the removed lines that satisfy their equations, yields such a
+    pair (extend, then direction (1)). -/
+theorem substitute_sem_removing {α : Type _} (h m h' : NNet) (c : Nat) (hw : h.wf = true) (mw : m.wf = true)
+    (hc : c < h.net.nodes.size) (hio : h.net.io.contains c = false) (hcf : (h.net.node c).isFork = false)
+    (hr : noIgnoredB h c m = true) (hok : implOKB m = true) (he : substitute h c m = some h')
+    (z : α) (neg : α → α) (prim : String → α → α → α → α → α) :
+    ∃ (h5 : NNet) (map : Array (Option Nat)) (dang : List (Option Nat)) (r : Ren),
+      substituteCore h c m = some (h5, map, dang) ∧ SubstSemStmt h m h5 c z neg prim ∧ h'.wfNoTrail = true ∧
+      (keepsAllB h c m = true → h' = h5) ∧
+      (∀ j', j' < h'.net.nodes.size → r.node j' < h5.net.nodes.size ∧ (h'.net.node j').kind = (h5.net.node (r.node j')).kind ∧
+        h'.names.getD j' "" = h5.names.getD (r.node j') "" ∧
+        ∀ k, ((h'.net.node j').inPin k).map r.line = (h5.net.node (r.node j')).inPin k) ∧
+      (∀ j1 j2, j1 < h'.net.nodes.size → j2 < h'.net.nodes.size → r.node j1 = r.node j2 → j1 = j2) ∧
+      h'.net.io.map r.node = h5.net.io ∧
+      (∀ j, j < h5.net.nodes.size → isSeqKind (h5.net.node j).kind = true → ∃ j', j' < h'.net.nodes.size ∧ r.node j' = j) ∧
+      (∀ l', l' < h'.net.lines.size → r.line l' < h5.net.lines.size ∧
+        (h5.net.line (r.line l')).driver = r.node (h'.net.line l').driver) ∧
+      (∀ (S : Nat → Prop) (an v : Nat → α), ConsOff h5 S z neg prim an v →
+        ConsOff h' (fun j' => S (r.node j')) z neg prim (fun j => an (r.node j)) (fun l => v (r.line l))) ∧
+      (∀ (S : Nat → Prop) (an v : Nat → α),
+        ConsOff h' (fun j' => S (r.node j')) z neg prim (fun j => an (r.node j)) (fun l => v (r.line l)) →
+        (∀ l, l < h5.net.lines.size → (¬ ∃ l', l' < h'.net.lines.size ∧ r.line l' = l) → ¬ S (h5.net.line l).driver →
+          v l = lineEq h5.net (spN h5.net) z neg prim an v l) →
+        ConsOff h5 S z neg prim an v) := by
+  obtain ⟨h5, map, dang, sh, dn, r, hcore, ct, w', e, sq⟩ :=
+    substitute_removing h m h' c (WF.of_wf hw) (WF.of_wf mw) hc hio hcf hr hok he
+  refine ⟨h5, map, dang, r, hcore, ?_, wfNoTrail_of_WFm w', ?_,
+    fun j' hj => ⟨e.nodeLt j' hj, e.kind j' hj, e.name j' hj, e.pins j' hj (fun x => x)⟩, e.nodeInj, e.io,
+    sq, fun l' hl => ⟨e.lineLt l' hl, (e.drv l' hl).2.1⟩, fun S an v hc => e.restrict S z neg prim an v hc,
+    fun S an v hc hrem => e.extend S z neg prim an v hc hrem⟩
+  · exact ⟨sh, dn, map, ct.shape, ct.des, wf_of_WF ct.wf', ct.mapDn,
+      fun j x hm => ⟨ct.mapM j x hm, ct.mapGe j x hm, ct.mapLt j x hm, ct.kind' j x hm⟩, ct.mapInj, ct.io', ct.frameNode, ct.lsize,
+      fun S hS an' v' hc' => ct.forward z neg prim S hS an' v' hc',
+      fun S an v anm vm hH hM => ct.backward z neg prim S an v anm vm hH hM⟩
+  · intro hk
+    obtain ⟨_, _, map', dang', _, _, hcore', _⟩ := substitute_keepsAll_eq h c m h' hk he
+    rw [hcore] at hcore'
+    exact (Prod.mk.inj (Option.some.inj hcore')).1.symm
 
 /-- `ConsOff` without holes is consistency, and consistency in the node-indexed form is `consistentB` (Model/Net.lean,
     the gate-by-gate meaning used by C01): the labelling as an array, the assignment by `s_nodes` position -/
@@ -679,6 +773,23 @@ example : exImplFF.wf = true ∧ exHostFF.wf = true ∧ regularB exHostFF 2 exIm
     keepsAllB exHostU 2 exImpl = false ∧
     (substitute exHostFF 2 exImplFF).map (fun r => (r.wf, (r.net.node 2).kind, (r.net.node 2).outs, r.sNames)) =
       some (true, "DFF", [some 2], ["d", "clk", "q", "u"]) := by decide +kernel
+
+/-- hypotheses of `substitute_sem_removing` / `remove_dangling_sem` are satisfiable and something is removed: with `exHostU` the
+    `OR2` of `exImpl` dangles (11 nodes before, 10 after the removal); with the cell `input(D,C) output(Q,Z)`, `Q` = pin 0 of a
+    `DFF`, `Z = INV1(pin 1 of the DFF)`, instantiated with `Z` open, the `INV1` is removed and leaves a trailing `None` in the
+    `outs` of the `DFF` (`[some 2, none]`): the result is well-formed only up to trailing `None`s (`wfNoTrail`), as the
+    theorems state -/
+def exImplFZ : NNet :=
+  { net := { nodes := #[⟨"__fork__", [], [some 0]⟩, ⟨"__fork__", [], [some 1]⟩, ⟨"__fork__", [some 2], []⟩,
+                        ⟨"__fork__", [some 4], []⟩, ⟨"DFF", [some 0, some 1], [some 2, some 3]⟩, ⟨"INV1", [some 3], [some 4]⟩],
+             lines := #[⟨0, 0, 4, 0⟩, ⟨1, 0, 4, 1⟩, ⟨4, 0, 2, 0⟩, ⟨4, 1, 5, 0⟩, ⟨5, 0, 3, 0⟩], io := [0, 1, 2, 3] },
+    names := #["D", "C", "Q", "Z", "Q", "Z"] }
+example : noIgnoredB exHostU 2 exImpl = true ∧ keepsAllB exHostU 2 exImpl = false ∧
+    (substituteCore exHostU 2 exImpl).map (fun r => (r.1.wf, r.1.net.nodes.size, r.2.2)) = some (true, 11, [some 10]) ∧
+    (substitute exHostU 2 exImpl).map (fun r => (r.wf, r.wfNoTrail, r.net.nodes.size)) = some (true, true, 10) ∧
+    exImplFZ.wf = true ∧ implOKB exImplFZ = true ∧ noIgnoredB exHostFF 2 exImplFZ = true ∧
+    (substitute exHostFF 2 exImplFZ).map (fun r => (r.wf, r.wfNoTrail, (r.net.node 2).kind, (r.net.node 2).outs, r.net.nodes.size)) =
+      some (false, true, "DFF", [some 2, none], 4) := by decide +kernel
 
 /-- hypotheses of `resolve_sem`: every substitution of the example removes nothing (`resolveOKB`); the result is consistent under the
     evaluator's labelling (direction (1) is not vacuous) -/
